@@ -60,6 +60,7 @@ type threadAbort struct{}
 type ctxInfo struct {
 	parent    int // 0 = none
 	cancelled bool
+	deadline  bool
 }
 
 type threadBlocked struct{}
